@@ -67,8 +67,9 @@ W2 == /\ spc = "w2"
       /\ IF ctx # "live"
          THEN /\ SetErr("ctx") /\ spc' = "idle" /\ Log(<<"send", "ctx">>)
               /\ UNCHANGED <<pending>>
-         ELSE /\ IF prClosed THEN /\ spc' = "idle" /\ Log(<<"send", "eof">>) /\ UNCHANGED pending
-                             ELSE /\ spc' = "w3" /\ pending' = TRUE /\ UNCHANGED log
+         \* (the context check and the pipe write are separate steps: a write into a pipe that is already closed
+         \*  returns the stream-closed error in W3eof -- possibly after the context has ended meanwhile)
+         ELSE /\ spc' = "w3" /\ pending' = TRUE /\ UNCHANGED log
               /\ UNCHANGED <<err, prClosed>>
       /\ UNCHANGED <<sc, ctx, sop, sleft, rpc, rleft, started, rq, ready, resp, pw, env>>
 \* blocked in pipe write until consumed or reader closed
